@@ -42,8 +42,14 @@ func checkC16(c *Check) {
 			def, masked := false, false
 			for i, e := range ph.Edges {
 				if v, ok := constInt(e); ok && v == uf && v&p.Sys("CLONE_NEWPID") != 0 {
-					g := controlDeps(sc).guardOf(ph.Block().Preds[i])
-					if strings.Contains(g.String(), ".CloneFlags == 0") {
+					cdi := controlDeps(sc)
+					pred := ph.Block().Preds[i]
+					g := cdi.guardOf(pred)
+					if pif := blockIf(pred); pif != nil && pred.Succs[0] != pred.Succs[1] {
+						// the edge itself is a branch of the test (`x := default; if set { x = ... }`)
+						g = fAnd(g, cdi.condForm(pif.Cond, pred.Succs[0] == ph.Block(), map[*ssa.BasicBlock]*Form{}, map[*ssa.BasicBlock]bool{}, 0))
+					}
+					if ok, _, _ := Valid(fImp(g, fLit(firstAtomWith(g, ".CloneFlags == 0")))); ok && firstAtomWith(g, ".CloneFlags == 0") != "?" {
 						def = true
 					}
 				}
@@ -104,16 +110,48 @@ func checkC16(c *Check) {
 			c.Undecided("2/eof-exits", "container."+fk[1], "-", "function not found")
 			continue
 		}
-		var io ssa.CallInstruction
-		for _, ci := range callInstrs(fn) {
-			if n, _ := calleeOf(ci); strings.HasSuffix(n, "container.socket)."+fk[2]) {
-				io = ci
+		// whenever the socket operation fails, 'done' has been closed by the time the loop function returns (decided
+		// path by path with the operation's error assumed non-nil, whatever the loop's form). The operation may sit
+		// in a per-round helper of the package: the helper then closes 'done' itself on every failing return, or
+		// hands the error back, and the call of the helper is judged in its place.
+		var judge func(f *ssa.Function, isIO func(ci ssa.CallInstruction) bool, depth int) bool
+		judge = func(f *ssa.Function, isIO func(ci ssa.CallInstruction) bool, depth int) bool {
+			var io ssa.CallInstruction
+			for _, ci := range callInstrs(f) {
+				if isIO(ci) {
+					io = ci
+				}
 			}
-		}
-		ok := false
-		if io != nil {
-			// whenever the socket operation fails, 'done' has been closed by the time the loop function returns
-			// (decided path by path with the operation's error assumed non-nil, whatever the loop's form)
+			if io == nil {
+				if depth >= 2 {
+					return false
+				}
+				for _, ci := range callInstrs(f) {
+					_, callee := calleeOf(ci)
+					if callee == nil || callee.Pkg != f.Pkg || len(callee.Blocks) == 0 || callee == f {
+						continue
+					}
+					has := false
+					for _, c2 := range callInstrsDeep(callee, 1) {
+						if isIO(c2) {
+							has = true
+						}
+					}
+					if !has {
+						continue
+					}
+					// the helper settles it on its own ...
+					if judge(callee, isIO, depth+1) {
+						return true
+					}
+					// ... or reports the failure to its caller, which must settle it
+					if hands, _ := handsErrorBack(p, callee, isIO); hands {
+						return judge(f, func(c3 ssa.CallInstruction) bool { return c3 == ci }, depth+1)
+					}
+					return false
+				}
+				return false
+			}
 			var errV ssa.Value
 			if v, isV := io.(ssa.Value); isV {
 				errV = v
@@ -126,7 +164,7 @@ func checkC16(c *Check) {
 				}
 			}
 			failedRets, bad := 0, 0
-			w := &walker{fn: fn, Inline: -1, MaxVisits: 3}
+			w := &walker{fn: f, Inline: -1, MaxVisits: 3}
 			w.Seed = func(w *walker, st *wstate, v ssa.Value) *absVal {
 				if v == errV {
 					return &absVal{k: avPtr, key: "X:err"}
@@ -152,8 +190,12 @@ func checkC16(c *Check) {
 				}
 			}
 			w.Run()
-			ok = errV != nil && failedRets > 0 && bad == 0 && !w.Truncated
+			return errV != nil && failedRets > 0 && bad == 0 && !w.Truncated
 		}
+		ok := judge(fn, func(ci ssa.CallInstruction) bool {
+			n, _ := calleeOf(ci)
+			return strings.HasSuffix(n, "container.socket)."+fk[2])
+		}, 0)
 		c.Cond(ok, "2/eof-exits", "container."+strings.ReplaceAll(fk[1], ".", "·")+":error→done", p.Pos(fn.Pos()), "a transport error closes 'done'", "a transport error in this loop does not close 'done': blocked callers never notice the loss of the peer")
 	}
 	c.Expect("2/eof-exits", 5)
@@ -452,4 +494,36 @@ func shortChans(cs []string) []string {
 func isSyncChannelPeer(v ssa.Value, child *ssa.Function) bool {
 	d := describe(stripConv(v))
 	return strings.HasSuffix(d, "[0]") && !strings.Contains(d, "Files")
+}
+
+// handsErrorBack: f calls the operation and, whenever that fails, returns a non-nil error to its caller
+// (the failure is not swallowed inside f).
+func handsErrorBack(p *Prog, f *ssa.Function, isIO func(ci ssa.CallInstruction) bool) (bool, ssa.CallInstruction) {
+	var io ssa.CallInstruction
+	for _, ci := range callInstrs(f) {
+		if isIO(ci) {
+			io = ci
+		}
+	}
+	if io == nil {
+		return false, nil
+	}
+	res := f.Signature.Results()
+	if res.Len() == 0 || res.At(res.Len()-1).Type().String() != "error" {
+		return false, io
+	}
+	v, isV := io.(ssa.Value)
+	if !isV {
+		return false, io
+	}
+	var errV ssa.Value = v
+	if refs := v.Referrers(); refs != nil {
+		for _, r := range *refs {
+			if ex, isE := r.(*ssa.Extract); isE && ex.Type().String() == "error" {
+				errV = ex
+			}
+		}
+	}
+	ok, _ := errPropagated(p, errV)
+	return ok, io
 }
